@@ -40,7 +40,7 @@ REQUIRED = ['transfers', 'bytes_compared', 'reordered_batches',
             'short_reads_served', 'failures_injected', 'failures_reported',
             'size_lies', 'file_object_ops', 'sparse_transfers',
             'tree_transfers', 'links_followed',
-            'openssh_transfers']
+            'openssh_transfers', 'fileseq_runs']
 BUDGET_S = {'quick': 300, 'thorough': 3400}
 CASE_TIMEOUT_S = 90
 
@@ -119,6 +119,18 @@ def gen_cases(tier, seed):
                       'block': rng.choice([4096, 16384, 65536]),
                       'maxreq': rng.choice([1, 4, 128]),
                       'chunk': 'all', 'cseed': rng.randrange(1 << 30)})
+    # one remote file object, a sequence of positioned / unpositioned reads
+    # and writes, seeks and truncations, binary and text mode
+    for i in range(160 if tier == 'quick' else 3000):
+        cases.append({'op': 'fileseq',
+                      'mode': ['wb', 'w+b', 'ab', 'a+b', 'w', 'w+', 'a',
+                               'r+b'][i % 8],
+                      'enc': ['utf-8', 'utf-16-le', 'utf-8', 'latin-1'][i % 4],
+                      'block': [16384, 64, 1000, 7][(i // 8) % 4],
+                      'maxreq': [128, 1, 4][(i // 32) % 3],
+                      'nops': 3 + i % 9,
+                      'chunk': 'all',
+                      'cseed': 7000 + i + 100000 * (int(seed) % 1000)})
     if openssh.SFTP:
         no = 6 if tier == 'quick' else 60
         for i in range(no):
@@ -462,6 +474,213 @@ def _run_sparse(case, mon, viol):
     return info
 
 
+# ------------------------------------------------------------------ file object
+
+def _run_fileseq(case, mon, viol):
+    """A sequence of operations on one SFTPClientFile against a byte-array
+       model with a position (None while appending)"""
+
+    tmp = _tmp()
+    root = os.path.join(tmp, 'root')
+    os.mkdir(root)
+    info = {}
+    rng = random.Random(case['cseed'])
+    mode = case['mode']
+    text = 'b' not in mode
+    enc = case['enc'] if text else None
+    appending = mode.startswith('a')
+    readable = '+' in mode or mode.startswith('r')
+    initial = apps.stream_bytes(('fs', case['cseed']), 300) \
+        if mode.startswith(('a', 'r')) and not text else b''
+    if mode.startswith('a') and text:
+        initial = 'd\u00e9but\n'.encode(enc)
+    with open(os.path.join(root, 'f.bin'), 'wb') as f:
+        f.write(initial)
+    alphabet = {'utf-8': 'ab\u00e9\u20ac\U0001F600\n', 'latin-1': 'ab\u00e9\n',
+                'utf-16-le': 'ab\u00e9\u20ac\U0001F600\n'}.get(enc, '')
+
+    def piece():
+        n = rng.choice([0, 1, 2, 5, 63, 64, 65, 999, 1000, 1001, 2500])
+        if text:
+            return ''.join(rng.choice(alphabet) for _ in range(min(n, 700)))
+        return apps.stream_bytes(('fsd', case['cseed'], rng.random()), n)
+
+    async def main(loop):
+        class Srv(apps.RecServer):
+            def session_requested(self):
+                from asyncssh.stream import SSHServerStreamSession
+                return SSHServerStreamSession(
+                    None, lambda chan: asyncssh.SFTPServer(chan,
+                                                           chroot=root), 3)
+
+        async with scen.Env(loop, server_factory=lambda: Srv(
+                apps.EventLog()), chunking=case['chunk'],
+                seed=case['cseed']) as env:
+            conn = await env.connect()
+            sftp = await conn.start_sftp_client()
+            okw = dict(block_size=case['block'], max_requests=case['maxreq'])
+            if text:
+                okw['encoding'] = enc
+            else:
+                okw['encoding'] = None
+            f = await sftp.open('/f.bin', mode.replace('b', ''), **okw)
+            content = bytearray(initial)
+            pos = None if appending else 0
+            trace = []
+
+            def bad(what, got, want):
+                viol.append({
+                    'mechanism': 'file_object_model',
+                    'detail': f'{what}: got {got!r:.80}, model says '
+                              f'{want!r:.80}; mode={mode} enc={enc} '
+                              f'block={case["block"]} trace={trace[-6:]}'})
+
+            for _ in range(case['nops']):
+                if viol:
+                    break
+                op = rng.choice(['write', 'write', 'write', 'write_at',
+                                 'seek', 'tell', 'read', 'read_at',
+                                 'truncate'])
+                if op in ('read', 'read_at') and not readable:
+                    op = 'write'
+                if op == 'write':
+                    d = piece()
+                    b = d.encode(enc) if text else d
+                    trace.append(('write', len(b)))
+                    n = await f.write(d)
+                    off = pos or 0
+                    if appending:
+                        content += b
+                        pos = None
+                    else:
+                        if b and off > len(content):
+                            content += bytes(off - len(content))
+                        if b:
+                            content[off:off + len(b)] = b
+                        pos = off + len(b)
+                    if n != len(b):
+                        bad('write() return value', n, len(b))
+                elif op == 'write_at':
+                    d = piece()
+                    b = d.encode(enc) if text else d
+                    off = rng.choice([0, 1, len(content),
+                                      len(content) + 3,
+                                      rng.randrange(len(content) + 1)])
+                    if text:
+                        off = rng.choice([0, len(content)])
+                    trace.append(('write_at', off, len(b)))
+                    await f.write(d, off)
+                    if appending:
+                        content += b
+                        pos = None
+                    else:
+                        if b and off > len(content):
+                            content += bytes(off - len(content))
+                        if b:
+                            content[off:off + len(b)] = b
+                        pos = off + len(b)
+                elif op == 'seek':
+                    wh = rng.choice([0, 0, 1, 2])
+                    if text:
+                        k, wh = rng.choice([(0, 0), (0, 2)])
+                    elif wh == 0:
+                        k = rng.randrange(len(content) + 5)
+                    elif wh == 1:
+                        k = rng.randrange(0, 4)
+                    else:
+                        k = -rng.randrange(0, min(len(content), 5) + 1)
+                    trace.append(('seek', k, wh))
+                    got = await f.seek(k, wh)
+                    if wh == 0:
+                        pos = k
+                    elif wh == 1:
+                        pos = (len(content) if pos is None else pos) + k
+                    else:
+                        pos = len(content) + k
+                    if got != pos:
+                        bad('seek() return value', got, pos)
+                elif op == 'tell':
+                    trace.append(('tell',))
+                    got = await f.tell()
+                    if pos is None:
+                        pos = len(content)
+                    if got != pos:
+                        bad('tell()', got, pos)
+                elif op == 'read':
+                    n = -1 if text else rng.choice([-1, 0, 1, 64, 65, 1001,
+                                                    5000])
+                    if text and pos not in (None, 0):
+                        continue
+                    trace.append(('read', n, pos))
+                    got = await f.read(n)
+                    if pos is None:
+                        want = b''
+                    else:
+                        want = bytes(content[pos:] if n < 0 else
+                                     content[pos:pos + n])
+                        if want:
+                            pos += len(want)
+                    gb = got.encode(enc) if text else got
+                    if gb != want:
+                        bad('read()', gb, want)
+                elif op == 'read_at':
+                    off = 0 if text else rng.randrange(len(content) + 3)
+                    n = -1 if text else rng.choice([-1, 1, 64, 1001])
+                    trace.append(('read_at', n, off))
+                    got = await f.read(n, off)
+                    want = bytes(content[off:] if n < 0 else
+                                 content[off:off + n])
+                    gb = got.encode(enc) if text else got
+                    if gb != want:
+                        bad('read(offset=)', gb, want)
+                    if want:
+                        pos = off + len(want)
+                    else:
+                        # where an empty positioned read leaves the file
+                        # position is not specified: re-synchronise
+                        pos = await f.seek(0, 2)
+                        if pos != len(content):
+                            bad('seek(0, SEEK_END)', pos, len(content))
+                elif op == 'truncate' and pos is not None and not text:
+                    k = rng.choice([None, 0, len(content) // 2,
+                                    len(content) + 7])
+                    trace.append(('truncate', k, pos))
+                    await f.truncate(k)
+                    size = pos if k is None else k
+                    if size <= len(content):
+                        del content[size:]
+                    else:
+                        content += bytes(size - len(content))
+                mon['file_object_ops'] += 1
+            await f.close()
+            with open(os.path.join(root, 'f.bin'), 'rb') as fh:
+                got = fh.read()
+            mon['transfers'] += 1
+            mon['fileseq_runs'] += 1
+            mon['bytes_compared'] += len(content)
+            if not viol:
+                d = apps.diagnose(bytes(content), got)
+                if d:
+                    viol.append({'mechanism': 'file_object_content_differs',
+                                 'detail': {**d, 'mode': mode, 'enc': enc,
+                                            'block': case['block'],
+                                            'trace': trace[-8:]}})
+            info['trace'] = trace[-12:]
+            sftp.exit()
+            conn.close()
+            await conn.wait_closed()
+            await env.settle()
+            for ev in env.san.drain():
+                viol.append({'mechanism': 'sanitizer_' + ev['kind'],
+                             'detail': ev})
+
+    try:
+        scen.run(main)
+    finally:
+        shutil.rmtree(tmp, ignore_errors=True)
+    return info
+
+
 # ------------------------------------------------------------------ trees
 
 def _run_tree(case, mon, viol):
@@ -656,6 +875,8 @@ def run_case(case):
             info = _run_sparse(case, mon, viol)
         elif case['op'] == 'tree':
             info = _run_tree(case, mon, viol)
+        elif case['op'] == 'fileseq':
+            info = _run_fileseq(case, mon, viol)
         elif case['op'] == 'openssh':
             verdict = _run_openssh(case, mon, viol)
         else:
